@@ -12,6 +12,7 @@ ASSUMPTIONS = oc.ASSUMPTIONS
 
 
 def queries(ctx):
+    thorough = ctx["tier"] == "thorough"
     qs = [oc.out_query(k, kf=ctx["kf"]) for k in range(9)]
     # a second call in the same process image (failed exec followed by another exec, vfork, threads) behaves like the first
     for k in (3, 2, 4):
@@ -19,4 +20,8 @@ def queries(ctx):
     # large pids (Linux pid_max may be 2^22): decimal rendering is solver-hard, so the range is partitioned: base + 6 symbolic bits
     for base in (99990, 999990, 4194240):
         qs.append(oc.out_query(0, kf=ctx["kf"], prefix="pid%d" % base, extra_defines=("PIDBASE=%d" % base, "PIDBITS=6")))
+    if thorough:
+        # longer messages / arguments
+        for k in (3, 4, 0, 6):
+            qs.append(oc.out_query(k, kf=ctx["kf"], prefix="long", extra_defines=("MSGMAX=9", "ARGMAXLEN=9"), timeout=3000))
     return qs
